@@ -119,7 +119,13 @@ async fn register(
         .await
         .map_err(|e| {
             let mut state = plugin.state().lock().unwrap();
-            if e.is_connection() && state.towers.contains_key(&tower_id) {
+            // Only a tower we thought reachable is downgraded: unreachable towers and towers with a subscription
+            // error are waiting for a (manual or automatic) retry, which a failed command does not start.
+            if e.is_connection()
+                && state
+                    .get_tower_status(&tower_id)
+                    .map_or(false, |s| s.is_reachable())
+            {
                 state.set_tower_status(tower_id, TowerStatus::TemporaryUnreachable);
             }
             to_cln_error(e)
@@ -201,12 +207,13 @@ async fn get_subscription_info(
     )
     .await
     .map_err(|e| {
-        if e.is_connection() {
-            plugin
-                .state()
-                .lock()
-                .unwrap()
-                .set_tower_status(tower_id, TowerStatus::TemporaryUnreachable);
+        let mut state = plugin.state().lock().unwrap();
+        if e.is_connection()
+            && state
+                .get_tower_status(&tower_id)
+                .map_or(false, |s| s.is_reachable())
+        {
+            state.set_tower_status(tower_id, TowerStatus::TemporaryUnreachable);
         }
         to_cln_error(e)
     })?;
@@ -249,12 +256,13 @@ async fn get_appointment(
     )
     .await
     .map_err(|e| {
-        if e.is_connection() {
-            plugin
-                .state()
-                .lock()
-                .unwrap()
-                .set_tower_status(params.tower_id, TowerStatus::TemporaryUnreachable);
+        let mut state = plugin.state().lock().unwrap();
+        if e.is_connection()
+            && state
+                .get_tower_status(&params.tower_id)
+                .map_or(false, |s| s.is_reachable())
+        {
+            state.set_tower_status(params.tower_id, TowerStatus::TemporaryUnreachable);
         }
         to_cln_error(e)
     })?;
